@@ -54,6 +54,7 @@ def configs(tier):
                         continue        # 9 tasks with >2 workers: too many orders; covered with 1 and 2 workers
                     out.append((sh, axis, kind, nj, '3d', 'virtual'))
             out.append((sh, axis, 'shared', 2, 'group', 'virtual'))
+            out.append((sh, axis, 'shared', 1, 'group-refit', 'virtual'))
             if ntasks(sh, axis) <= (3 if q else 4):
                 out.append((sh, axis, 'list', 2, '3d', 'real'))
                 out.append((sh, axis, 'dict', 3, '3d', 'real'))
@@ -134,7 +135,7 @@ class Schedules3D(Space):
         n0, n1 = sh
         sigs = np.array([[S.word_signal(WORDS[i * n1 + j]) for j in range(n1)] for i in range(n0)])
         sgn = {'entry': c['entry'], 'executor': c['executor'], 'options': kind, 'axis': repr(axis), 'square': n0 == n1}
-        if c['entry'] == 'group':
+        if c['entry'].startswith('group'):
             opts = {'center_extrema': 'trough', 'threshold_kwargs': dict(S.T0)}
             kind_ref = 'dict'
         else:
@@ -152,6 +153,13 @@ class Schedules3D(Space):
                     return compute_features_3d(sigs.copy(), FS, FR, compute_features_kwargs=copy.deepcopy(opts), axis=axis,
                                                return_samples=True, n_jobs=nj), None
                 bg = BycycleGroup(center_extrema='trough', thresholds=dict(S.T0))
+                if c['entry'] == 'group-refit':
+                    # the same object was fitted before on another array (different shape): nothing may remain of it
+                    other = np.array([[S.word_signal(WORDS[-1 - k]) for k in range(2)]] * 1) if (n0, n1) != (1, 2) else \
+                        np.array([[S.word_signal(WORDS[-1])], [S.word_signal(WORDS[-2])]])
+                    saved, sched.VirtualPool.order = sched.VirtualPool.order, None
+                    bg.fit(other, FS, FR, axis=(0, 1), n_jobs=1)
+                    sched.VirtualPool.order = saved
                 bg.fit(sigs.copy(), FS, FR, axis=axis, n_jobs=nj)
                 return bg.df_features, bg
         try:
@@ -171,6 +179,8 @@ class Schedules3D(Space):
                     got, obj = run()
                     seen, timeouts = g.observed()
                 extra['order_not_enforced' if (timeouts or seen != tuple(order)) else 'order_enforced_in_real_workers'] = 1
+        except sched.HarnessError:
+            raise
         except Exception as e:      # noqa
             import traceback
             return VIOL(dict(sgn, kind='raise', exc=type(e).__name__), 'compute_features_3d raised %s: %s' % (type(e).__name__, str(e)[:150]),
@@ -185,6 +195,8 @@ class Schedules3D(Space):
                     return VIOL(dict(sgn, kind='position'), 'entry [%d][%d] is not the analysis of the signal at that position (%s); it '
                                 'equals the expected table of %s' % (i, j, dd, where), observed=c)
         if obj is not None:
+            if len(obj) != n0 or len(obj.models) != n0 or any(len(r) != n1 for r in obj.models):
+                return VIOL(dict(sgn, kind='models'), 'BycycleGroup.models does not have the shape of the fitted array', observed=c)
             for i in range(n0):
                 for j in range(n1):
                     m = obj.models[i][j]
